@@ -91,3 +91,66 @@ package hash
 //@   ensures {C14} otherfields: result1 == nil && onhash(params) ==> (forall f string :: f != hfld(params) ==> (has(hnow(params), f) <==> old(has(ashash(hval(params, hkey(params))), f))) && hnow(params)[f] == old(ashash(hval(params, hkey(params)))[f]))
 //@   ensures {C14} reply-int: result1 == nil && !hisfloatcmd(params) && onhash(params) && (hfold(params) == nil || isint(hfold(params))) ==> bstr(result0) == ":" ++ (itoa((hfold(params) == nil ? 0 : asint(hfold(params))) + atoi(harg(params, 3))) ++ "\r\n")
 //@   ensures {C14,C20} others: hothers(params)
+
+// HSET / HSETNX: the fields named in the command get the adapted values (for HSETNX only where absent); all other fields stay.
+// hpair(f, j): word j of the command names field f and word j+1 is its value.
+//@ spec hpair(params internal.HandlerFuncParams, f string, j int) bool = 2 <= j && j + 1 < len(params.Command) && j % 2 == 0 && harg(params, j) == f
+//@ spec hset_named(params internal.HandlerFuncParams, f string) bool = exists j int :: hpair(params, f, j)
+//@ spec hisnx(params internal.HandlerFuncParams) bool = lower(harg(params, 0)) == "hsetnx"
+
+//@ func handleHSET props C14,C12
+//@   requires generic.henv(params)
+//@   assumes own-cmd: len(params.Command) >= 2 ==> disjointarr(params.Command, $srv.keysWithExpiry.keys[dbof(params.Context)])
+//@   assumes stored-wf: len(params.Command) >= 2 && ishash(hval(params, hkey(params))) ==> !fresh(ashash(hval(params, hkey(params)))) && hwf(ashash(hval(params, hkey(params))))
+//@   ensures {C14} arity: len(params.Command) < 4 || len(params.Command) % 2 != 0 ==> result1 != nil
+//@   ensures {C14} fields-new: result1 == nil && !onhash(params) ==> ishash(hval(params, hkey(params))) && (forall f string :: has(hnow(params), f) <==> hset_named(params, f))
+//@   ensures {C14} fields-merged: result1 == nil && onhash(params) ==> ishash(hval(params, hkey(params))) && (forall f string :: has(hnow(params), f) <==> (old(has(ashash(hval(params, hkey(params))), f)) || hset_named(params, f)))
+//@   ensures {C14} named: result1 == nil ==> (forall f string :: hset_named(params, f) && !(hisnx(params) && onhash(params) && old(has(ashash(hval(params, hkey(params))), f))) ==> (exists j int :: hpair(params, f, j) && hnow(params)[f] == adapt(harg(params, j + 1))))
+//@   ensures {C14} kept: result1 == nil && onhash(params) ==> (forall f string :: old(has(ashash(hval(params, hkey(params))), f)) && (!hset_named(params, f) || hisnx(params)) ==> hnow(params)[f] == old(ashash(hval(params, hkey(params)))[f]))
+//@   ensures {C14} wf: result1 == nil ==> hwf(hnow(params))
+//@   ensures {C14,C20} others: hothers(params)
+//@   assert @SetValues#1 overwrite: old(hlive(params, hkey(params))) && !old(ishash(hval(params, hkey(params))))
+//@   loop 0
+//@     invariant 2 <= i && i % 2 == 0 && len(params.Command) % 2 == 0 && len(params.Command) >= 4 && i <= len(params.Command) && fresh(entries) && hwf(entries)
+//@     invariant forall j int :: 0 <= j && j < len(params.Command) ==> params.Command[j] == harg(params, j)
+//@     invariant forall f string :: has(entries, f) <==> (exists j int :: hpair(params, f, j) && j < i)
+//@     invariant forall f string :: has(entries, f) ==> (exists j int :: hpair(params, f, j) && j < i && entries[f] == adapt(harg(params, j + 1)))
+//@     invariant hpure(params) && hcontent(params)
+//@   loop 1
+//@     invariant onhash(params) && hash == h0(params) && fresh(entries) && hwf(entries) && hwf(hash) && hpure(params) && hcontent(params)
+//@     invariant forall f string :: has(entries, f) <==> hset_named(params, f)
+//@     invariant forall f string :: has(entries, f) ==> (exists j int :: hpair(params, f, j) && entries[f] == adapt(harg(params, j + 1)))
+//@   loop 2
+//@     invariant onhash(params) && hash == h0(params) && fresh(entries) && hwf(entries) && hwf(hash) && hpure(params) && hcontent(params)
+//@     invariant forall f string :: domain0(f) <==> has(hash, f)
+//@     invariant forall f string :: has(entries, f) <==> (hset_named(params, f) || seen(f))
+//@     invariant forall f string :: seen(f) ==> entries[f] == hash[f]
+//@     invariant forall f string :: has(entries, f) && !seen(f) ==> (exists j int :: hpair(params, f, j) && entries[f] == adapt(harg(params, j + 1)))
+//@   loop 3
+//@     invariant onhash(params) && hash == h0(params) && fresh(entries) && hwf(entries) && hwf(hash) && hpure(params) && hcontent(params)
+//@     invariant forall f string :: domain0(f) <==> has(hash, f)
+//@     invariant forall f string :: has(entries, f) <==> (hset_named(params, f) || seen(f))
+//@     invariant forall f string :: seen(f) && !hset_named(params, f) ==> entries[f] == hash[f]
+//@     invariant forall f string :: hset_named(params, f) ==> (exists j int :: hpair(params, f, j) && entries[f] == adapt(harg(params, j + 1)))
+
+// HGET key field [field ...] replies an array with one entry per requested field: nil for an absent field, a bulk string for a
+// string, an integer for an int (floats are formatted by strconv.FormatFloat, outside the proof: not decided).
+//@ spec hbulk(s string) string = "$" ++ (itoa(len(s)) ++ ("\r\n" ++ (s ++ "\r\n")))
+//@ spec hpiece(v any) string = v == nil ? "$-1\r\n" : (isstr(v) ? hbulk(asstr(v)) : ":" ++ (itoa(asint(v)) ++ "\r\n"))
+
+//@ func handleHGET props C14,C12,C13
+//@   requires generic.henv(params)
+//@   assumes own-cmd: len(params.Command) >= 2 ==> disjointarr(params.Command, $srv.keysWithExpiry.keys[dbof(params.Context)])
+//@   assumes stored-wf: len(params.Command) >= 2 && ishash(hval(params, hkey(params))) ==> !fresh(ashash(hval(params, hkey(params)))) && hwf(ashash(hval(params, hkey(params))))
+//@   ensures {C14} arity: len(params.Command) < 3 ==> result1 != nil
+//@   ensures {C14} absent: len(params.Command) >= 3 && !old(hlive(params, hkey(params))) ==> result1 == nil && bstr(result0) == "$-1\r\n"
+//@   ensures {C14} wrongtype: len(params.Command) >= 3 && old(hlive(params, hkey(params))) && !old(ishash(hval(params, hkey(params)))) ==> result1 != nil
+//@   ensures {C14} found: len(params.Command) >= 3 && onhash(params) ==> result1 == nil
+//@   ensures {C13,C14} pure: hpure(params)
+//@   ensures {C13,C14} content: hcontent(params)
+//@   loop 0
+//@     invariant onhash(params) && hash == h0(params) && -1 <= rangeindex && rangeindex < len(rangeslice) && len(rangeslice) == len(params.Command) - 2 && hpure(params) && hcontent(params)
+//@     invariant forall j int :: 0 <= j && j < len(rangeslice) ==> rangeslice[j] == harg(params, j + 2)
+//@     invariant {C14} header: rangeindex == -1 ==> res == "*" ++ (itoa(len(params.Command) - 2) ++ "\r\n")
+//@     iteration {C14} step: rangeindex == atheader(rangeindex) + 1
+//@     iteration {C14} entry: (h0(params)[harg(params, rangeindex + 2)] == nil || isstr(h0(params)[harg(params, rangeindex + 2)]) || isint(h0(params)[harg(params, rangeindex + 2)])) ==> res == atheader(res) ++ hpiece(h0(params)[harg(params, rangeindex + 2)])
